@@ -11,6 +11,7 @@ import (
 	"wvsa/internal/cparse"
 	"wvsa/internal/facts"
 	"wvsa/internal/layout"
+	"wvsa/internal/load"
 )
 
 // bodyTable is the layout the property states (offsets 0,4,8,10,12,44,52,53).
@@ -237,8 +238,11 @@ func c04(c *Ctx) {
 }
 
 // c04reads: the signing functions depend only on the eight body fields.
-func c04reads(c *Ctx) {
-	p, R := c.Node(), c.R
+func c04reads(c *Ctx) { c04readsOn(c, c.Node(), "C04.reads") }
+
+// c04readsOn checks digest purity on the vaa package of program p under the given rule name.
+func c04readsOn(c *Ctx, p *load.Program, rule string) {
+	R := c.R
 	allowed := map[string]bool{
 		"N/vaa.MustWrite": true, "(*bytes.Buffer).Write": true, "(*bytes.Buffer).Bytes": true, "(time.Time).Unix": true,
 		"geth/crypto.Keccak256Hash": true, "(geth/common.Hash).Bytes": true, "(*N/vaa.VAA).serializeBody": true, "(*N/vaa.VAA).signingBody": true,
@@ -268,9 +272,9 @@ func c04reads(c *Ctx) {
 			}
 		})
 		// the receiver must not escape other than as receiver of the allowed methods
-		R.Check("C04.reads", "C04.reads/"+name, c.rel(p.Pos(fn.Pos())), name+" reads only body fields of the receiver and calls only pure serialisation/hash functions", len(bad) == 0, strings.Join(bad, "; "))
+		R.Check(rule, rule+"/"+name, c.rel(p.Pos(fn.Pos())), name+" reads only body fields of the receiver and calls only pure serialisation/hash functions", len(bad) == 0, strings.Join(bad, "; "))
 		if name == "serializeBody" {
-			R.Floor("C04.reads.fields", nf, 8)
+			R.Floor(rule+".fields", nf, 8)
 		}
 	}
 	sm := must(p.Method(pkgVAA, "VAA", "SigningMsg"), "vaa.(*VAA).SigningMsg")
@@ -280,7 +284,7 @@ func c04reads(c *Ctx) {
 			dbl = facts.Term(rt.Results[0]) == "geth/crypto.Keccak256Hash([(geth/common.Hash).Bytes(geth/crypto.Keccak256Hash([(*N/vaa.VAA).signingBody(v)]))])"
 		}
 	})
-	R.Check("C04.reads", "C04.reads/SigningMsg/double-keccak", c.rel(p.Pos(sm.Pos())), "SigningMsg = Keccak256(Keccak256(signingBody())) — the digest both contracts recompute", dbl, "SigningMsg is not the double keccak of the signing body")
+	R.Check(rule, rule+"/SigningMsg/double-keccak", c.rel(p.Pos(sm.Pos())), "SigningMsg = Keccak256(Keccak256(signingBody())) — the digest both contracts recompute", dbl, "SigningMsg is not the double keccak of the signing body")
 	sb := must(p.Method(pkgVAA, "VAA", "signingBody"), "vaa.(*VAA).signingBody")
 	same := false
 	eachInstr(sb, func(i ssa.Instruction) {
@@ -288,7 +292,7 @@ func c04reads(c *Ctx) {
 			same = facts.Term(rt.Results[0]) == "(*N/vaa.VAA).serializeBody(v)"
 		}
 	})
-	R.Check("C04.reads", "C04.reads/signingBody/is-serializeBody", c.rel(p.Pos(sb.Pos())), "the signing body is exactly the serialized body that Marshal appends to the header", same, "signingBody no longer returns serializeBody()")
+	R.Check(rule, rule+"/signingBody/is-serializeBody", c.rel(p.Pos(sb.Pos())), "the signing body is exactly the serialized body that Marshal appends to the header", same, "signingBody no longer returns serializeBody()")
 	// binary.BigEndian is the only package variable used; MustWrite = binary.Write or panic
 	mw := must(p.Func(pkgVAA, "MustWrite"), "vaa.MustWrite")
 	okmw := false
@@ -299,7 +303,7 @@ func c04reads(c *Ctx) {
 			}
 		}
 	})
-	R.Check("C04.reads", "C04.reads/MustWrite", c.rel(p.Pos(mw.Pos())), "MustWrite forwards its arguments unchanged to encoding/binary.Write", okmw, "MustWrite shape changed")
+	R.Check(rule, rule+"/MustWrite", c.rel(p.Pos(mw.Pos())), "MustWrite forwards its arguments unchanged to encoding/binary.Write", okmw, "MustWrite shape changed")
 	// timestamp contributes whole seconds only: Unix() (checked in layout-go by the exact source expression)
 	_ = types.Typ
 }
